@@ -197,6 +197,12 @@ impl World {
                     }
                 }
             }
+            if std::env::var_os("NVH_DEBUG").is_some() {
+                use std::io::Write;
+                if let Ok(mut f) = std::fs::OpenOptions::new().create(true).append(true).open(std::env::var("NVH_DEBUG").unwrap()) {
+                    let _ = writeln!(f, "dump tx{}: nodes {}/{} edges {}/{} props scan {}/{} point {}/{}", t, nn, n, ee, e, pp, p, pl, p);
+                }
+            }
             let c = if nn == *n && ee == *e && pp == *p && (pl == *p) {
                 '1'
             } else if nn == 0 && ee == 0 && pp == 0 && pl == 0 {
